@@ -99,3 +99,8 @@ def compare_chain(calc, y):
     for (n1, a), (n2, b) in zip(pts, pts[1:]):
         out.append((n2 - n1, calc.compare(a, b), calc.compare(b, a), calc.compare(a, a)))
     return out
+
+
+def day_range(calc):
+    """first and last day number of the calculator's supported range"""
+    return (calc._get_start_of_year_in_days(calc._min_year), calc._get_start_of_year_in_days(calc._max_year + 1) - 1)
